@@ -11,7 +11,7 @@ from ..facts import (physics_seeds, interpolate_modes_roles, LONG, OFFD, CALC, F
                      E, PTV, PSTAT, QPHYS, MODE_DEP)
 from ..model import dotted_name, src, body_wo_doc, is_logging_stmt
 from ..report import AnalysisError, Where
-from ..sym import Ev, Obj, Tup, Masked, AVG, as_sym, CondV
+from ..sym import Ev, Obj, Tup, Masked, AVG, as_sym, CondV, RaisedV
 
 NS = "cij.core.phonon_contribution.nonshear"
 AU = U.Ry / U.bohr ** 3
@@ -91,7 +91,15 @@ def r_formulas(ctx, model):
             if f is None:
                 raise AnalysisError(f"anchor vanished: {cref}.{attr}")
             w = model.where(f"{owner}.{attr}", f)
-            got = norm(ev.get_attr(obj, attr))
+            try:
+                got = norm(ev.get_attr(obj, attr))
+            except RaisedV:
+                raise
+            except AnalysisError as e:
+                # a formulation that does not reduce through average_over_modes cannot be read on the AVG basis; the cell-by-cell fold
+                # R01.13 decides the same identity (same reference) through whatever code performs the reduction
+                ctx.assume(f"R01.1-4 {kind}.{attr}: the AVG-basis normal form is not available for this formulation ({e.reason[:120]}); decided cell by cell by R01.13")
+                continue
             want = bose(expected(kind, part, ref), QPHYS, E)
             if kind == "long":
                 got, want = got.subs(E1, E0), want.subs(E1, E0)
@@ -103,6 +111,27 @@ def r_formulas(ctx, model):
                       explanation=f"{attr} of the {kind} class differs from the strain derivative of F: {why}",
                       key=f"{kind}.{attr}")
     ctx.call_sites += ev.call_sites
+
+
+def r_cells(ctx, model):
+    """zero-point and thermal bodies folded cell by cell on a 2 x 4 (q, m) grid with the real reduction code (cijsa/cellfold.py)"""
+    from ..cellfold import CellFold
+    ref = reference()
+    cf = CellFold(ctx, model)
+    for kind, cref in (("long", LONG), ("offd", OFFD)):
+        for part, attr in (("zp", "zero_point_contribution"), ("th", "thermal_contribution")):
+            owner, f, k = model.find_member(cref, attr)
+            if f is None:
+                raise AnalysisError(f"anchor vanished: {cref}.{attr}")
+            w = model.where(f"{owner}.{attr}", f)
+            got = cf.attr(cref, attr)
+            want = expected(kind, part, ref).replace(AVG, lambda x: cf.avg(x))
+            bad = cf.differs(got, want, same_strain=(kind == "long"))
+            ctx.check(not bad, f"{kind}.{attr} cell by cell (2 q-points x 4 modes, symbolic weights)", w,
+                      expected="3*NAT * sum_q w_q/sum(w) * 1/NP * sum_m [not Gamma acoustic] x_qm / (Ry/bohr^3)", found="differs in " + ", ".join(bad[:4]) if bad else "equal in every cell",
+                      explanation=f"{attr} of the {kind} class, folded cell by cell, is not the weight-normalised, Gamma-masked sum of the per-mode strain "
+                                  f"derivative of F: differs in {', '.join(bad[:4])}", key=f"{kind}.{attr}.cells")
+    ctx.call_sites += cf.ev.call_sites
 
 
 def r_total(ctx, model):
@@ -373,6 +402,7 @@ RULES = [
     ("R01.12", "constructors store the strain fractions and the calculator unchanged", r_constructor),
     ("R01.1-4", "zero-point and thermal contributions of both non-shear classes equal the strain derivatives of F "
                 "(AVG-linear normal form, quantity calculus; reference derived by differentiating F)", r_formulas),
+    ("R01.13", "the same bodies folded cell by cell on a 2 x 4 (q, m) grid through the real reduction code: weight of every cell", r_cells),
     ("R01.5", "isothermal value = zero-point + thermal (+ P_total - P_static for off-diagonal)", r_total),
     ("R01.6", "Bose factors Q, Q1, Q2 as rational functions of E = exp(hc nu / kT)", r_bose),
     ("R01.7", "mode average: unweighted mean over modes, weighted mean over q with q_weights; Gamma mask (q=0, m<3) on a copy", r_average),
